@@ -394,8 +394,21 @@ package hclsyntax
 
 // The conditional operator: the marks of the condition and of both results are on the result
 // (the error paths return cty.DynamicVal or a bare unknown together with error diagnostics).
+// (unit U14b, C05) An unknown condition: the result is refined from the ranges of BOTH results, and
+// every refinement it is given must admit each of them. Stated where the refinement is built (callsite
+// clauses: arg1, arg2 are the bound and its inclusive flag; trueLo, falseHi, ... are the function's
+// locals as of the call): the lower bound is at most either result's lower bound and inclusive if a
+// result's equal bound is; symmetrically for the upper bound; a collection's length bounds enclose
+// both results' bounds; "not null" only if both results are definitely not null.
 // verif:func (*ConditionalExpr).Value
 //@ nosafety
+//@ props C06,C05
+//@ callsite NumberRangeLowerBound numLo: numOrd(arg1) <= numOrd(trueLo) && numOrd(arg1) <= numOrd(falseLo) && (numOrd(arg1) == numOrd(trueLo) && trueLoInc ==> arg2) && (numOrd(arg1) == numOrd(falseLo) && falseLoInc ==> arg2)
+//@ callsite NumberRangeUpperBound numHi: numOrd(arg1) >= numOrd(trueHi) && numOrd(arg1) >= numOrd(falseHi) && (numOrd(arg1) == numOrd(trueHi) && trueHiInc ==> arg2) && (numOrd(arg1) == numOrd(falseHi) && falseHiInc ==> arg2)
+//@ callsite CollectionLengthLowerBound lenLo: arg1 <= trueLo && arg1 <= falseLo
+//@ callsite CollectionLengthUpperBound lenHi: arg1 >= trueHi && arg1 >= falseHi
+//@ callsite NotNull notNull: rngNotNull(trueRange) && rngNotNull(falseRange)
+//@ callsite RefineNotNull notNull2: rngNotNull(trueRange) && rngNotNull(falseRange)
 //@ ensures marks: forall k iface :: { marked(ret0, k) } marked(exprVal(old(e.Condition), ctx), k) || marked(exprVal(old(e.TrueResult), ctx), k) || marked(exprVal(old(e.FalseResult), ctx), k) ==> marked(ret0, k) || ((bareUnknown(ret0) || ret0 == cty.DynamicVal) && hasErr(ret1))
 
 // The splat operator: the marks of the source value are on the result (error paths return
@@ -406,8 +419,13 @@ package hclsyntax
 
 // Templates: the marks of every interpolated part that is not null are on the result (a null part
 // is an error and the part is skipped).
+// (unit U14b, C05) The known prefix of a template whose remainder is unknown is announced trimmed of
+// its last grapheme cluster (RefinementBuilder.StringPrefix), because the unknown remainder may
+// combine with it under normalisation; the untrimmed form (StringPrefixFull) is never sound here.
 // verif:func (*TemplateExpr).Value
 //@ nosafety
+//@ props C06,C05
+//@ callsite StringPrefixFull untrimmed: false
 //@ ensures marks: forall j int, k iface :: { marked(exprVal(old(e.Parts[j]), ctx), k) } 0 <= j && j < old(len(e.Parts)) && marked(exprVal(old(e.Parts[j]), ctx), k) && !isNullVal(exprVal(old(e.Parts[j]), ctx)) ==> marked(ret0, k)
 //@ loop 1 invariant marks != nil && fresh(marks) && (forall j int, k iface :: { marked(exprVal(e.Parts[j], ctx), k) } 0 <= j && j <= rangeindex && marked(exprVal(e.Parts[j], ctx), k) && !isNullVal(exprVal(e.Parts[j], ctx)) ==> has(marks, k))
 //@ loop 2 invariant marks != nil && partMarks != marks && (forall k iface :: { has(marks, k) } { atentry(has(marks, k)) } atentry(has(marks, k)) ==> has(marks, k)) && (forall k iface :: { visited(k) } visited(k) ==> has(marks, k)) && (forall k iface :: { has(partMarks, k) } { atentry(has(partMarks, k)) } has(partMarks, k) == atentry(has(partMarks, k)))
